@@ -184,6 +184,8 @@ package server
 //@ guardedby userPanel.activeUsersM: mapof(userPanel.activeUsers)
 //@ guardedby userPanel.usageUpdateQueueM: mapof(userPanel.usageUpdateQueue), userPanel.usageUpdateQueue
 //@ lockinv ActiveUser.sessionsM: sessionsOK: self.sessions != nil && (forall k uint32 :: mapHas(self.sessions, k) ==> self.sessions[k] != nil)
+// every registered session is one (*Session).Close accepts: built by MakeSession from a good configuration
+//@ lockinv ActiveUser.sessionsM: sessionsClosable: forall k uint32 :: mapHas(self.sessions, k) ==> ghostcall("multiplex.closable", self.sessions[k])
 //@ lockinv userPanel.activeUsersM: usersOK: self.activeUsers != nil && (forall k [16]byte :: mapHas(self.activeUsers, k) ==> self.activeUsers[k] != nil && self.activeUsers[k].panel == self)
 //@ lockinv userPanel.usageUpdateQueueM: queueOK: self.usageUpdateQueue != nil
 
@@ -200,6 +202,7 @@ package server
 // with the same id always meet in the same session, whatever their order.
 //@ func (*ActiveUser).GetSession
 //@   requires u != nil && u.panel != nil && u.panel.Manager != nil && !held(u.sessionsM) && locksBelow(u.sessionsM)
+//@   requires goodConfig: ghostcall("multiplex.cfgOK", config)
 //@   # C19: every session of a user is paced by the user's ONE valve (rates apply across sessions together)
 //@   atcall MakeSession requires sharedValve: arg1.(mux.SessionConfig).Valve == u.valve
 //@   atcall AuthoriseNewSession requires countIsCurrent: heldx(u.sessionsM) && ainfo.NumExistingSessions == mapLen(u.sessions)
@@ -224,6 +227,7 @@ package server
 //@   preserves $KEEP
 //@   flag assumepreserves
 //@   loop 0 invariant lk: held(u.sessionsM) && u != nil && u.sessions != nil && (forall k uint32 :: mapHas(u.sessions, k) ==> u.sessions[k] != nil)
+//@   loop 0 invariant closable: forall k uint32 :: mapHas(u.sessions, k) ==> ghostcall("multiplex.closable", u.sessions[k])
 // TerminateActiveUser: usage is queued, every session is closed, the record is removed - each step
 // under its own lock, none nested.
 //@ func (*userPanel).TerminateActiveUser
@@ -345,7 +349,7 @@ package server
 //@     assume(noLocksHeld())
 //@     user, err := panel.GetUser(uid)
 //@     if err != nil { return }
-//@     assume(user.panel == panel && user.panel.Manager != nil)
+//@     assume(user.panel == panel && user.panel.Manager != nil && ghostcall("multiplex.cfgOK", cfg))
 //@     sesh, _, err2 := user.GetSession(id, cfg)
 //@     if err2 != nil || sesh == nil { return }
 //@     assert(registered(panel, user))
